@@ -188,6 +188,13 @@ Min(t) == CASE t.op = "lit" -> t.name
                             ls == IF Prec(l.op) < Prec(t.op) THEN Paren(Min(l)) ELSE Min(l)
                             rs == IF Prec(r.op) <= Prec(t.op) THEN Paren(Min(r)) ELSE Min(r)
                         IN ls \o Sp \o Chars(Tok(t.op)) \o Sp \o rs
+RECURSIVE Leafy(_)   \* like Min, but every operand is wrapped in parentheses of its own: (a) or (b)
+Leafy(t) == CASE t.op = "lit" -> Paren(t.name)
+              [] t.op = "not" -> <<"n","o","t"," ">> \o (IF t.kids[1].op \in {"lit", "not"} THEN Leafy(t.kids[1]) ELSE Paren(Leafy(t.kids[1])))
+              [] OTHER -> LET l == t.kids[1]  r == t.kids[2]
+                              ls == IF Prec(l.op) < Prec(t.op) THEN Paren(Leafy(l)) ELSE Leafy(l)
+                              rs == IF Prec(r.op) <= Prec(t.op) THEN Paren(Leafy(r)) ELSE Leafy(r)
+                          IN ls \o Sp \o Chars(Tok(t.op)) \o Sp \o rs
 RECURSIVE WithAt(_)  \* every operand decorated with '@', blanks inside parentheses
 WithAt(t) == CASE t.op = "lit" -> <<"@">> \o t.name
                [] t.op = "not" -> <<"n","o","t"," ","("," ">> \o WithAt(t.kids[1]) \o <<" ",")">>
